@@ -66,7 +66,6 @@ structure PSt where
 
 abbrev PM := ExceptT PErr (StateM PSt)
 
-abbrev Items := List (Str × Val)
 
 namespace P
 
